@@ -34,9 +34,9 @@ BUDGET = {'quick': 240, 'thorough': 1500}
 
 def shards(tier):
     q = tier == 'quick'
-    out = [{'kind': 'hist', 'n': 120 if q else 2500} for _ in range(12)]
-    out += [{'kind': 'interact', 'n': 12 if q else 300} for _ in range(2)]
-    out += [{'kind': 'drain', 'n': 40 if q else 800} for _ in range(2)]
+    out = [{'kind': 'hist', 'n': 300 if q else 2500} for _ in range(12)]
+    out += [{'kind': 'interact', 'n': 30 if q else 300} for _ in range(4)]
+    out += [{'kind': 'drain', 'n': 100 if q else 800} for _ in range(2)]
     return out
 
 
